@@ -206,7 +206,7 @@ theorem Family.tree_elim (h : f.ok look = true) (htm : f.treeMode = true) (hw : 
 
 theorem Family.walk_elim (h : f.ok look = true) (htm : f.treeMode = true) (hw : f.treeWalk = true)
     {ks : List Nat} (hks : ks ∈ f.keys) {j : Nat} (hj : j < f.nOut ks) :
-    treeEqv (implied true) (fun _ a b => f.leafOK ks j a b) [] ((look f.unit ks).out j) (f.specT ks j) = true := by
+    treeEqv impliedAll (fun _ a b => f.leafOK ks j a b) [] ((look f.unit ks).out j) (f.specT ks j) = true := by
   simp only [Family.ok, List.all_eq_true] at h
   have := h ks hks
   unfold Family.okAt at this
@@ -224,7 +224,7 @@ theorem Family.walk_poly_sound {K : Type} [Field K] [LinearOrder K] [IsStrictOrd
     (ho : OrderedEqLike o) (h : f.ok look = true) (htm : f.treeMode = true) (hw : f.treeWalk = true) (hk : f.kind = .poly)
     {ks : List Nat} (hks : ks ∈ f.keys) {j : Nat} (hj : j < f.nOut ks) (env : Nat → K) :
     ((look f.unit ks).out j).eval o env = (f.specT ks j).eval o env := by
-  obtain ⟨path, _, hl⟩ := treeEqv_sound (implied_sound ho env true) _ _ (Family.walk_elim h htm hw hks hj)
+  obtain ⟨path, _, hl⟩ := treeEqv_sound (impliedAll_sound ho env) _ _ (Family.walk_elim h htm hw hks hj)
     (by intro cb hcb; cases hcb)
   rw [Tree.eval_eq_select o env ((look f.unit ks).out j), Tree.eval_eq_select o env (f.specT ks j)]
   simp only [Family.leafOK, hk, Bool.or_eq_true] at hl
